@@ -19,7 +19,6 @@ import (
 	"errors"
 	"fmt"
 	"os"
-	"path/filepath"
 	"sort"
 	"strconv"
 	"strings"
@@ -615,6 +614,26 @@ func exec(i int, line string) (out, label string, nontrivial bool) {
 		haveState = true
 		o := doReset(r)
 		return o, "reset:" + P.shape, false
+	case "newbm":
+		if len(ws) != 2 {
+			return "bad-op", "bad-op", false
+		}
+		ids, ok := parseCsvBytes(ws[1], 13)
+		if !ok {
+			return "bad-op", "bad-op", false
+		}
+		raw := make([]*ptttype.UserID_t, len(ids))
+		for k, id := range ids {
+			raw[k] = &ptttype.UserID_t{}
+			copy(raw[k][:], id)
+		}
+		var bm *ptttype.BM_t
+		o := hx.CallSync(func() string { bm = ptttype.NewBM(raw); return "" })
+		P.judgeNewBM(i, line, ids, o, bm)
+		if o != "" {
+			return o, "newbm:" + o, true
+		}
+		return hx.Hex(bm[:]), "newbm", true
 	case "create":
 		q, ok := parseReq(ws[1:])
 		if !ok || !haveState {
@@ -696,7 +715,6 @@ func main() {
 	}
 	defer env.Close()
 	cache.IsTest = true // Shm.Reset is a no-op otherwise
-	_ = filepath.Join
 	run.Rule = "histories `reset; create*` through the real ptt.NewBoard on real .BRD/.PASSWDS/boards files and a private segment. " +
 		"tables: dense 0..100, one vacated slot at every position (small n) and at first/middle/last (n=100), several vacated (2..6, n up to 100), full (100, with and without vacated), junk in every unnamed byte; " +
 		"names: valid (2 and 12 bytes, with _ - .), 1 and 13 bytes, leading digit/_/-, '/', '..', space, NUL inside, high byte, case variants of existing names, duplicates of existing and of names created earlier in the history; " +
